@@ -230,7 +230,13 @@ def start_servers(scratch):
         a.stop(); b.stop()
         raise blackbox.ToolError(str(errs[0]))
     for s in (a, b):
-        st, js = s.query("create database %s" % DB, method="POST")
+        for attempt in range(3):     # a freshly started meta service can take long to answer on a loaded machine
+            try:
+                st, js = s.query("create database %s" % DB, method="POST", timeout=120)
+                break
+            except blackbox.ToolError:
+                if attempt == 2:
+                    raise
         if st != 200 or (js and any("error" in r for r in js.get("results", []))):
             raise blackbox.ToolError("create database failed on %s: %s %s" % (s.name, st, js))
     freeze((a, b))
